@@ -23,6 +23,22 @@ struct Universe {
     keys: Vec<(u16, u16)>,
     vectors: Vec<Vec<Vec<i32>>>,
     reference: bool,
+    /// the pre-agreed sizes both ends use for the wire form (None = explicit size on the wire)
+    sizes: fn(u16) -> Option<u32>,
+}
+
+/// Pre-agreed sizes for every type of the `fixed` universes, on both sides of 0x4000 and of the
+/// signed-key boundary 0x8000 (lengths as built by `universe_fixed`: type 1 -> 2 words, the key at
+/// position k otherwise [1,3,2,1,3][k % 5]).
+fn sizes_all_fixed5(t: u16) -> Option<u32> {
+    match t {
+        1 => Some(2),
+        2 => Some(3),
+        0x7fff => Some(2),
+        0x8000 => Some(1),
+        0xffff => Some(3),
+        _ => None,
+    }
 }
 
 const VALS: [i32; 6] = [0, 1, -1, i32::MIN, i32::MAX, 0x12345678];
@@ -50,7 +66,7 @@ fn universe_fixed(name: &'static str, keys: &[(u16, u16)], n: usize, reference: 
             vs
         })
         .collect();
-    Universe { name, keys: keys.to_vec(), vectors, reference }
+    Universe { name, keys: keys.to_vec(), vectors, reference, sizes: obj_size }
 }
 
 fn universe(name: &'static str, keys: &[(u16, u16)], n: usize, reference: bool) -> Universe {
@@ -59,6 +75,7 @@ fn universe(name: &'static str, keys: &[(u16, u16)], n: usize, reference: bool) 
         keys: keys.to_vec(),
         vectors: keys.iter().map(|k| vectors_for(k.0, n)).collect(),
         reference,
+        sizes: obj_size,
     }
 }
 
@@ -116,16 +133,21 @@ fn check_pair(u: &Universe, ia: usize, ib: usize, snaps: &[RawSnap], snaps_b: &[
     c.read_with_delta(&mut w, a, &d).map_err(|e| format!("direct apply fails: {:?}", e))?;
     eq(&c, "direct", &w)?;
     // through bytes
-    let bytes = write_delta_bytes(&d);
+    let sizes = u.sizes;
+    let bytes = {
+        let mut buf: Vec<u8> = Vec::with_capacity(1 << 16);
+        libtw2_packer::with_packer(&mut buf, |p| d.write(sizes, p).map(|b| b.len())).map_err(|_| "delta does not fit 64 KiB".to_string())?;
+        buf
+    };
     let mut d2 = dirty.clone();
-    d2.read(&mut w, obj_size, &mut Unpacker::new(&bytes)).map_err(|e| format!("reading the written delta fails: {:?}", e))?;
+    d2.read(&mut w, sizes, &mut Unpacker::new(&bytes)).map_err(|e| format!("reading the written delta fails: {:?}", e))?;
     c.read_with_delta(&mut w, a, &d2).map_err(|e| format!("apply after bytes fails: {:?}", e))?;
     eq(&c, "via bytes", &w)?;
     // through ints
     let mut ints = vec![0i32; 4096];
-    let n = d.write_to_ints(obj_size, &mut ints).map_err(|_| "delta does not fit 4096 ints".to_string())?.len();
+    let n = d.write_to_ints(sizes, &mut ints).map_err(|_| "delta does not fit 4096 ints".to_string())?.len();
     let mut d3 = dirty.clone();
-    d3.read_from_ints(&mut w, obj_size, &mut IntUnpacker::new(&ints[..n])).map_err(|e| format!("reading the int delta fails: {:?}", e))?;
+    d3.read_from_ints(&mut w, sizes, &mut IntUnpacker::new(&ints[..n])).map_err(|e| format!("reading the int delta fails: {:?}", e))?;
     c.read_with_delta(&mut w, a, &d3).map_err(|e| format!("apply after ints fails: {:?}", e))?;
     eq(&c, "via ints", &w)?;
     if !order.is_empty() {
@@ -292,6 +314,7 @@ fn main() {
         vec![
             universe_fixed("fixed-ref5", &[(1, 0), (1, 1), (2, 0), (2, 0xffff), (0x3fff, 5)], 4, true),
             universe_fixed("fixed-signed5", &[(1, 0), (2, 0), (0x7fff, 0), (0x8000, 0), (0xffff, 0xffff)], 4, false),
+            Universe { sizes: sizes_all_fixed5, ..universe_fixed("fixed-signed5-all-sizes-pre-agreed", &[(1, 0), (2, 0), (0x7fff, 0), (0x8000, 0), (0xffff, 0xffff)], 3, false) },
             universe("var-ref4", &[(1, 0), (1, 1), (2, 0), (0x3fff, 5)], 4, true),
             universe("var-signed4", &[(1, 0), (0x7fff, 0), (0x8000, 0), (0xffff, 0xffff)], 4, false),
         ]
@@ -299,6 +322,7 @@ fn main() {
         vec![
             universe_fixed("fixed-ref5", &[(1, 0), (1, 1), (2, 0), (2, 0xffff), (0x3fff, 5)], 3, true),
             universe_fixed("fixed-signed5", &[(1, 0), (2, 0), (0x7fff, 0), (0x8000, 0), (0xffff, 0xffff)], 3, false),
+            Universe { sizes: sizes_all_fixed5, ..universe_fixed("fixed-signed5-all-sizes-pre-agreed", &[(1, 0), (2, 0), (0x7fff, 0), (0x8000, 0), (0xffff, 0xffff)], 2, false) },
             universe("var-ref4", &[(1, 0), (1, 1), (2, 0), (0x3fff, 5)], 3, true),
             universe("var-signed4", &[(1, 0), (0x7fff, 0), (0x8000, 0), (0xffff, 0xffff)], 3, false),
         ]
@@ -310,7 +334,7 @@ fn main() {
     run.assume("comparison with the DDNet reference is restricted to the reference's own domain (type ids <= 0x3fff, static sizes only for types < 64); outside it the reference aborts the process");
     run.assume("the comparison with the reference hands the items to both builders in ascending key order; the create/apply/wire oracles are additionally run with the items inserted in descending and rotated order");
     run.finish(
-        "all ordered pairs of all snapshots over universes of 4 and 5 keys, each key absent or carrying one of 3 (quick) / 4 (thorough) data vectors (lengths 0..3, values from {0,1,-1,MIN,MAX,0x12345678}; type 1 has a pre-agreed size): delta create -> apply, via bytes, via ints (every Delta / snapshot object involved is a reused one that held other content before), DDNet reference delta applied here, serialization compared with the reference builder; the same pairs with the items inserted in descending / rotated order (create -> apply, via bytes, via ints); plus limit families (1024 items, ~64 KiB)",
+        "all ordered pairs of all snapshots over universes of 4 and 5 keys, each key absent or carrying one of 3 (quick) / 4 (thorough) data vectors (lengths 0..3, values from {0,1,-1,MIN,MAX,0x12345678}; type 1 has a pre-agreed size; one universe pre-agrees the size of every type, below and above 0x4000 and 0x8000): delta create -> apply, via bytes, via ints (every Delta / snapshot object involved is a reused one that held other content before), DDNet reference delta applied here, serialization compared with the reference builder; the same pairs with the items inserted in descending / rotated order (create -> apply, via bytes, via ints); plus limit families (1024 items, ~64 KiB)",
         true,
     );
 }
